@@ -25,8 +25,10 @@ MANIFEST = dict(
           "always returns and P*M = unit_lower(LU)*upper(LU) with P the identity permuted by `pivots` genuine row transpositions (lu_spec); "
           "determinant never panics and is (+/-) the product of U's diagonal with the sign given by the parity of the exchanges "
           "(determinant_sign_rule, determinant_total); for every mathcomp fieldType the code's determinant IS \\det (determinant_is_det), hence "
-          "0 on every singular matrix, sign flip under a row exchange, multiplicativity (determinant_singular_zero/_row_swap/_mul); inverse, "
-          "when it returns, is a two-sided inverse and the only one (inverse_right, inverse_two_sided, inverse_unique); it returns exactly on "
+          "0 on every singular matrix, sign flip under a row exchange, multiplicativity (determinant_singular_zero/_row_swap/_mul); for every "
+          "nonsingular matrix (one with a left inverse Nf) over any such field -- Qc, R, C included -- inverse returns Nf and it is a two-sided "
+          "inverse, and the determinant is a nonzero value (inverse_nonsingular, determinant_nonsingular); inverse, when it returns, is a right "
+          "inverse (inverse_right), two-sided and unique over a fieldType (inverse_two_sided, inverse_unique); it returns exactly on "
           "nonsingular input and panics with DivZero exactly on singular input (inverse_complete, inverse_returns_iff_nonsingular, "
           "inverse_panics_iff_singular, inverse_result); solve_lu is sound and complete (the LU half of C01). The pre-repair determinant is "
           "refuted on the committed witnesses (Legacy/C02Refuted.v). The same Gallina functions are run against the implementation on every "
